@@ -62,6 +62,25 @@ def _too_sparse(rows, sec, sps, mb):
     return False
 
 
+def _expected_pieces(rows, sec, sps, mb):
+    """lengths of the pieces of one section under the documented rule (zero-length pieces are set to 1 um)"""
+    from jxmon.oracles import swcref as R5
+    pts = sec["points"]
+    d = R5.seg_lengths(rows, sec, sps)
+    L = float(np.sum(d))
+    if len(pts) < 2 or L <= mb:
+        return [R5.length(rows, sec, sps)]
+    best = None
+    for n in range(2, 12):
+        k = len(pts) // n
+        bounds = [(0, k)] + [(i * k - 1, (i + 1) * k) for i in range(1, n - 1)] + [((n - 1) * k - 1, len(pts))]
+        lens = [float(np.sum(d[a:b - 1])) for a, b in bounds]
+        best = lens
+        if max(lens) <= mb:
+            break
+    return [1.0 if x == 0.0 else x for x in best]
+
+
 def _first_piece_is_gap(rows, sec, sps, mb):
     """single-point-soma file, section leaving the soma: does the documented splitting rule end with pieces of two traced points?
     Then the first piece is [soma point, first neurite point], whose length (gap ignored) is 0 and is set to 1 um."""
@@ -239,8 +258,13 @@ def run_case(case, rec):
                           total=float(Ls.sum()), want_total=float(sum(R5.length(rows, s, sps) for s in secs)), n_branches=len(Ls), max_branch_len=mb,
                           predicted_zero_pieces=int(sum(_first_piece_is_gap(rows, s, sps, mb) for s in secs)), **tag)
                 too_long = [float(x) for x in Ls if x > mb * (1 + 1e-9)]
-                rec.check("split", not too_long or max(npieces.values() or [0]) >= 10 or any(len(s["points"]) <= 2 for s in secs),
-                          what="max_branch_len: a piece is longer than the limit although it could be split further", too_long=too_long[:5], max_branch_len=mb, **tag)
+                exp = []
+                for s in secs:
+                    exp += _expected_pieces(rows, s, sps, mb)
+                same = len(exp) == len(Ls) and np.allclose(sorted(exp), sorted(Ls.tolist()), rtol=1e-9, atol=1e-9)
+                rec.check("split", same, what="max_branch_len: piece lengths differ from the documented splitting rule (equal numbers of traced points, "
+                          "more pieces until every piece is below the limit, at most 11)", got=sorted(float(x) for x in Ls)[:12], want=sorted(exp)[:12],
+                          too_long=too_long[:5], max_branch_len=mb, **tag)
         opts = f"mr{case['min_radius']}|mb{int(bool(case['max_branch_len']))}"
         rec.sig(f"sps{int(sps)}|n{len(secs)}|t{tag['types']}|nc{case['ncomp']}|{opts}|fs{int(case['swc']['from_soma_start'])}", nontrivial=len(secs) > 1)
     finally:
